@@ -413,7 +413,7 @@ func runC11(ctx *Ctx, idx int) {
 func init() {
 	register(&CheckDef{
 		ID: "C11", Level: "exploration", Race: true,
-		Rule: "case = (one shared instance: fresh complete / fresh filter / loaded from current bytes / loaded from 0.5.10 allpref bytes / loaded from three-section bytes; G in {2,4,8,16,32} goroutines; GOMAXPROCS in {1,2,16}); every goroutine runs two seeded permutations of a fixed list of ~200-400 read operations (Get, GetID, RangeGet, Search, GetI32, ScanFrom, ScanFromTo, NewIter cursors, Stat, String, Marshal, proto.Size) with randomized yielding, released from a barrier; oracle: zero reports of the Go race detector with a frame in slim/low/protobuf, every concurrent result equals the result of the same operation run alone, k iterators of one trie stepped round-robin and across goroutines each yield exactly their own sequence; the harness itself is built with -race; non-trivial = every case; distinct by keys and (G, GOMAXPROCS)",
+		Rule:          "case = (one shared instance: fresh complete / fresh filter / loaded from current bytes / loaded from 0.5.10 allpref bytes / loaded from three-section bytes; G in {2,4,8,16,32} goroutines; GOMAXPROCS in {1,2,16}); every goroutine runs two seeded permutations of a fixed list of ~200-400 read operations (Get, GetID, RangeGet, Search, GetI32, ScanFrom, ScanFromTo, NewIter cursors, Stat, String, Marshal, proto.Size) with randomized yielding, released from a barrier; oracle: zero reports of the Go race detector with a frame in slim/low/protobuf, every concurrent result equals the result of the same operation run alone, k iterators of one trie stepped round-robin and across goroutines each yield exactly their own sequence; the harness itself is built with -race; non-trivial = every case; distinct by keys and (G, GOMAXPROCS)",
 		NumCases:      c11NumCases,
 		Run:           runC11,
 		MinNontrivial: func(tier string) int { return c11NumCases(tier) * 3 / 4 },
